@@ -47,5 +47,6 @@ extern const hx_op ops_c20[];
 extern const hx_op ops_c10[];
 extern const hx_op ops_c05[];
 extern const hx_op ops_c13[];
+extern const hx_op ops_c08[];
 int hx_aead(const char *op, int argc, char **argv, FILE *o);  /* 1 = not an aead op */
 #endif
